@@ -1,0 +1,5 @@
+//go:build !verif
+
+package concurrent
+
+func verifAt(string, interface{}) {}
